@@ -1,4 +1,355 @@
 import BiotiteModel.Model.C10
-/-! Helper lemmas for C10. -/
 namespace BiotiteModel.C10
+
+def filt (h : Nat → Nat) (b : Nat) (items : List Entry) : List Entry :=
+  items.filter (fun e => h e.kmer == b)
+
+def specSlots (nb : Nat) (cnt : Nat → Nat) (ents : Nat → List Entry) : Slots :=
+  (List.range nb).map fun b => if cnt b = 0 then none else some ⟨cnt b, ents b⟩
+
+theorem set_map_range {α : Type} (nb b : Nat) (f : Nat → α) (v : α) :
+    ((List.range nb).map f).set b v = (List.range nb).map (fun i => if i = b then v else f i) := by
+  apply List.ext_getElem?
+  intro i
+  by_cases hi : i < nb
+  · by_cases hb : b = i
+    · subst hb; simp [hi]
+    · have : ¬ i = b := fun h => hb h.symm
+      simp [hi, hb, this]
+  · simp [hi]
+
+theorem filt_cons (h : Nat → Nat) (b : Nat) (e : Entry) (es : List Entry) :
+    filt h b (e :: es) = if h e.kmer = b then e :: filt h b es else filt h b es := by
+  simp [filt, List.filter_cons]
+
+theorem filt_append (h : Nat → Nat) (b : Nat) (xs ys : List Entry) :
+    filt h b (xs ++ ys) = filt h b xs ++ filt h b ys := by
+  simp [filt]
+
+theorem countPass_spec (h : Nat → Nat) (nb : Nat) (es : List Entry) :
+    ∀ c0 : Nat → Nat, (∀ e ∈ es, h e.kmer < nb) →
+      countPass h ((List.range nb).map c0) es
+        = .ok ((List.range nb).map fun b => c0 b + (filt h b es).length) := by
+  induction es with
+  | nil => intro c0 _; simp [countPass, filt]
+  | cons e es ih =>
+    intro c0 hb
+    have hk : h e.kmer < nb := hb e (by simp)
+    have hget : ((List.range nb).map c0)[h e.kmer]? = some (c0 (h e.kmer)) := by simp [hk]
+    simp only [countPass, hget]
+    rw [set_map_range, ih _ (fun x hx => hb x (by simp [hx]))]
+    congr 1
+    apply List.map_congr_left
+    intro b _
+    rw [filt_cons]
+    by_cases hbb : b = h e.kmer
+    · subst hbb; simp; omega
+    · have : ¬ h e.kmer = b := fun x => hbb x.symm
+      simp [hbb, this]
+
+theorem fill_spec (h : Nat → Nat) (nb : Nat) (rest : List Entry) :
+    ∀ done : List Entry, (∀ e ∈ rest, h e.kmer < nb) →
+      fill h (specSlots nb (fun b => (filt h b (done ++ rest)).length) (fun b => filt h b done)) rest
+        = .ok (specSlots nb (fun b => (filt h b (done ++ rest)).length) (fun b => filt h b (done ++ rest))) := by
+  induction rest with
+  | nil => intro done _; simp [fill]
+  | cons e es ih =>
+    intro done hb
+    have hk : h e.kmer < nb := hb e (by simp)
+    have hcnt : (filt h (h e.kmer) (done ++ e :: es)).length
+        = (filt h (h e.kmer) done).length + 1 + (filt h (h e.kmer) es).length := by
+      rw [filt_append, filt_cons]; simp; omega
+    have hget : (specSlots nb (fun b => (filt h b (done ++ e :: es)).length) (fun b => filt h b done))[h e.kmer]?
+        = some (some ⟨(filt h (h e.kmer) (done ++ e :: es)).length, filt h (h e.kmer) done⟩) := by
+      simp only [specSlots, List.getElem?_map, List.getElem?_range hk, Option.map_some]
+      rw [if_neg (by omega)]
+    have hlt : (filt h (h e.kmer) done).length < (filt h (h e.kmer) (done ++ e :: es)).length := by omega
+    simp only [fill, addEntry, hget, hlt, if_true]
+    have hsplit : done ++ e :: es = (done ++ [e]) ++ es := by simp
+    have key : (specSlots nb (fun b => (filt h b (done ++ e :: es)).length) (fun b => filt h b done)).set (h e.kmer)
+          (some ⟨(filt h (h e.kmer) (done ++ e :: es)).length, filt h (h e.kmer) done ++ [e]⟩)
+        = specSlots nb (fun b => (filt h b ((done ++ [e]) ++ es)).length) (fun b => filt h b (done ++ [e])) := by
+      unfold specSlots
+      rw [set_map_range]
+      apply List.map_congr_left
+      intro b _
+      rw [← hsplit]
+      simp only []
+      by_cases hbb : b = h e.kmer
+      · subst hbb
+        rw [if_pos rfl, if_neg (by omega), filt_append (xs := done), filt_cons]
+        simp [filt]
+      · have hne : ¬ h e.kmer = b := fun x => hbb x.symm
+        rw [if_neg hbb, filt_append (xs := done) (ys := [e]), filt_cons]
+        simp [hne, filt]
+    rw [key, ih (done ++ [e]) (fun x hx => hb x (by simp [hx])), ← hsplit]
+
+theorem initArrays_spec (nb : Nat) (c : Nat → Nat) :
+    initArrays ((List.range nb).map c) = specSlots nb c (fun _ => []) := by
+  simp [initArrays, specSlots]
+
+theorem canon_eq_spec (h : Nat → Nat) (nb : Nat) (items : List Entry) :
+    canon h nb items = specSlots nb (fun b => (filt h b items).length) (fun b => filt h b items) := by
+  simp [canon, specSlots, filt]
+
+theorem replicate_zero_eq (nb : Nat) : List.replicate nb 0 = (List.range nb).map (fun _ => 0) := by
+  apply List.ext_getElem?
+  intro i
+  by_cases hi : i < nb <;> simp [hi]
+
+/-- Two-pass construction = specification, never undefined behaviour. -/
+theorem build_eq_canon (h : Nat → Nat) (nb : Nat) (items : List Entry)
+    (hb : ∀ e ∈ items, h e.kmer < nb) : build h nb items = .ok (canon h nb items) := by
+  unfold build
+  rw [replicate_zero_eq, countPass_spec h nb items _ hb]
+  simp only [Nat.zero_add]
+  rw [initArrays_spec, canon_eq_spec]
+  have := fill_spec h nb items [] hb
+  simpa [filt] using this
+
+
+
+/-- the table the specification prescribes for a list of inserted items -/
+def canonTable (a : KAlph) (bucketed : Bool) (nb : Nat) (items : List Entry) : Table :=
+  ⟨a, bucketed, nb, canon (hashOf bucketed nb) nb items⟩
+
+theorem slotEntries_canon (h : Nat → Nat) (nb : Nat) (items : List Entry) (b : Nat) (hb : b < nb) :
+    slotEntries (canon h nb items) b = filt h b items := by
+  simp only [slotEntries, canon, List.getElem?_map, List.getElem?_range hb, Option.map_some]
+  by_cases h0 : (List.filter (fun e => h e.kmer == b) items).length = 0
+  · simp only [h0, if_true]
+    have : List.filter (fun e => h e.kmer == b) items = [] := List.eq_nil_of_length_eq_zero h0
+    simp [filt, this]
+  · simp [h0, filt]
+
+theorem slotEntries_canon_ge (h : Nat → Nat) (nb : Nat) (items : List Entry) (b : Nat) (hb : ¬ b < nb) :
+    slotEntries (canon h nb items) b = [] := by
+  simp [slotEntries, canon, hb]
+
+theorem lookup_canon (a : KAlph) (bucketed : Bool) (nb : Nat) (items : List Entry) (q : Nat)
+    (hbk : bucketed = true → 0 < nb) (hd : bucketed = false → q < nb) :
+    lookup (canonTable a bucketed nb items) q = items.filter (fun e => e.kmer == q) := by
+  cases bucketed with
+  | false =>
+    simp only [lookup, canonTable, Bool.false_eq_true, if_false]
+    rw [slotEntries_canon _ _ _ _ (hd rfl)]
+    simp [filt, hashOf]
+  | true =>
+    have hpos := hbk rfl
+    simp only [lookup, canonTable, if_true]
+    rw [slotEntries_canon _ _ _ _ (Nat.mod_lt _ hpos)]
+    simp only [filt, hashOf, if_true, List.filter_filter]
+    apply List.filter_congr
+    intro e _
+    by_cases he : e.kmer = q
+    · simp [he]
+    · simp [he]
+
+theorem mem_zipIdx {α : Type} (xs : List α) (i : Nat) (x : α) :
+    (i, x) ∈ zipIdx xs ↔ xs[i]? = some x := by
+  unfold zipIdx
+  rw [List.mem_iff_getElem?]
+  constructor
+  · rintro ⟨n, hn⟩
+    rw [List.getElem?_zip_eq_some] at hn
+    obtain ⟨h1, h2⟩ := hn
+    have : (List.range xs.length)[n]? = some i := h1
+    rw [List.getElem?_eq_some_iff] at this
+    obtain ⟨hlt, heq⟩ := this
+    simp at heq
+    subst heq
+    exact h2
+  · intro h
+    refine ⟨i, ?_⟩
+    rw [List.getElem?_zip_eq_some]
+    have hlt : i < xs.length := by
+      rw [List.getElem?_eq_some_iff] at h
+      exact h.1
+    exact ⟨by simp [hlt], h⟩
+
+theorem mem_zipIdx_zip {α β : Type} (xs : List α) (ys : List β) (i : Nat) (x : α) (y : β) :
+    ((i, x), y) ∈ (zipIdx xs).zip ys ↔ xs[i]? = some x ∧ ys[i]? = some y := by
+  rw [List.mem_iff_getElem?]
+  constructor
+  · rintro ⟨n, hn⟩
+    rw [List.getElem?_zip_eq_some] at hn
+    obtain ⟨h1, h2⟩ := hn
+    unfold zipIdx at h1
+    rw [List.getElem?_zip_eq_some] at h1
+    obtain ⟨h3, h4⟩ := h1
+    rw [List.getElem?_eq_some_iff] at h3
+    obtain ⟨_, heq⟩ := h3
+    simp at heq
+    subst heq
+    exact ⟨h4, h2⟩
+  · rintro ⟨hx, hy⟩
+    refine ⟨i, ?_⟩
+    rw [List.getElem?_zip_eq_some]
+    refine ⟨?_, hy⟩
+    have := (mem_zipIdx xs i x).2 hx
+    unfold zipIdx at *
+    rw [List.getElem?_zip_eq_some]
+    have hlt : i < xs.length := by
+      rw [List.getElem?_eq_some_iff] at hx
+      exact hx.1
+    exact ⟨by simp [hlt], hx⟩
+
+
+
+
+theorem matchKmers_canon (a : KAlph) (bucketed : Bool) (nb : Nat) (items : List Entry)
+    (qk : List Nat) (qm : List Bool)
+    (hbk : bucketed = true → 0 < nb) (hd : bucketed = false → ∀ q ∈ qk, q < nb) (i r j : Nat) :
+    (i, r, j) ∈ matchKmers (canonTable a bucketed nb items) qk qm ↔
+      ∃ q, qk[i]? = some q ∧ qm[i]? = some true ∧ (⟨q, r, j⟩ : Entry) ∈ items := by
+  unfold matchKmers
+  simp only [List.mem_flatMap]
+  constructor
+  · rintro ⟨⟨⟨i', q⟩, m⟩, hmem, hin⟩
+    rw [mem_zipIdx_zip] at hmem
+    obtain ⟨hq, hm⟩ := hmem
+    cases m with
+    | false => simp at hin
+    | true =>
+      have hqlt : bucketed = false → q < nb := fun hb => hd hb q (List.mem_of_getElem? hq)
+      simp only [if_true, lookup_canon a bucketed nb items q hbk hqlt, List.mem_map, List.mem_filter] at hin
+      obtain ⟨e, ⟨he, hk⟩, heq⟩ := hin
+      simp only [Prod.mk.injEq] at heq
+      obtain ⟨rfl, rfl, rfl⟩ := heq
+      refine ⟨q, hq, hm, ?_⟩
+      have : e.kmer = q := by simpa using hk
+      subst this
+      exact he
+  · rintro ⟨q, hq, hm, he⟩
+    refine ⟨((i, q), true), (mem_zipIdx_zip _ _ _ _ _).2 ⟨hq, hm⟩, ?_⟩
+    have hqlt : bucketed = false → q < nb := fun hb => hd hb q (List.mem_of_getElem? hq)
+    simp only [if_true, lookup_canon a bucketed nb items q hbk hqlt, List.mem_map, List.mem_filter]
+    exact ⟨⟨q, r, j⟩, ⟨he, by simp⟩, rfl⟩
+
+theorem hashOf_lt (bucketed : Bool) (nb q : Nat) (hbk : bucketed = true → 0 < nb)
+    (hd : bucketed = false → q < nb) : hashOf bucketed nb q < nb := by
+  cases bucketed with
+  | false => simpa [hashOf] using hd rfl
+  | true => simpa [hashOf] using Nat.mod_lt _ (hbk rfl)
+
+theorem mkTable_eq (a : KAlph) (nBuckets : Option Nat) (items : List Entry)
+    (hsize : 0 < a.size) (hnb : ∀ n, nBuckets = some n → 0 < n) (hq : ∀ e ∈ items, e.kmer < a.size) :
+    mkTable a nBuckets items = .ok (canonTable a nBuckets.isSome (slotCount a nBuckets) items) := by
+  unfold mkTable
+  have hb : ∀ e ∈ items, hashOf nBuckets.isSome (slotCount a nBuckets) e.kmer < slotCount a nBuckets := by
+    intro e he
+    apply hashOf_lt
+    · intro hs
+      cases nBuckets with
+      | none => simp at hs
+      | some n =>
+        have := hnb n rfl
+        simp only [slotCount]; split <;> omega
+    · intro hs
+      cases nBuckets with
+      | none => simpa [slotCount] using hq e he
+      | some n => simp at hs
+  simp only [build_eq_canon _ _ _ hb, canonTable]
+
+
+
+
+/-! ### merge -/
+
+def olen : Option Bucket → Nat
+  | some bk => bk.ents.length
+  | none => 0
+
+theorem countTable_map (l : List Nat) (c : Nat → Nat) (s : Nat → Option Bucket) :
+    countTable (l.map c) (l.map s) = l.map (fun b => c b + olen (s b)) := by
+  induction l with
+  | nil => simp [countTable]
+  | cons x xs ih =>
+    cases hs : s x <;> simp [countTable, ih, hs, olen]
+
+theorem countTable_canon (h : Nat → Nat) (nb : Nat) (c : Nat → Nat) (items : List Entry) :
+    countTable ((List.range nb).map c) (canon h nb items)
+      = (List.range nb).map (fun b => c b + (filt h b items).length) := by
+  unfold canon
+  rw [countTable_map]
+  apply List.map_congr_left
+  intro b _
+  have hf : List.filter (fun e => h e.kmer == b) items = filt h b items := rfl
+  simp only [hf]
+  by_cases h0 : (filt h b items).length = 0
+  · simp [h0, olen]
+  · simp [h0, olen]
+
+theorem foldl_countTable (h : Nat → Nat) (nb : Nat) (iss : List (List Entry)) :
+    ∀ c : Nat → Nat, (iss.map (canon h nb)).foldl countTable ((List.range nb).map c)
+      = (List.range nb).map (fun b => c b + (filt h b iss.flatten).length) := by
+  induction iss with
+  | nil => intro c; simp [filt]
+  | cons is iss ih =>
+    intro c
+    simp only [List.map_cons, List.foldl_cons, countTable_canon, ih, List.flatten_cons, filt_append,
+      List.length_append]
+    apply List.map_congr_left
+    intro b _
+    omega
+
+theorem appendEntries_map (l : List Nat) (t s k : Nat → Option Bucket)
+    (hk : ∀ x ∈ l, appendSlot (t x) (s x) = .ok (k x)) :
+    appendEntries (l.map t) (l.map s) = .ok (l.map k) := by
+  induction l with
+  | nil => simp [appendEntries]
+  | cons x xs ih =>
+    simp only [List.map_cons, appendEntries, hk x (by simp), ih (fun y hy => hk y (by simp [hy]))]
+
+theorem appendAll_spec (h : Nat → Nat) (nb : Nat) (iss : List (List Entry)) :
+    ∀ done : List Entry,
+      appendAll (specSlots nb (fun b => (filt h b (done ++ iss.flatten)).length) (fun b => filt h b done))
+          (iss.map (canon h nb))
+        = .ok (specSlots nb (fun b => (filt h b (done ++ iss.flatten)).length)
+            (fun b => filt h b (done ++ iss.flatten))) := by
+  induction iss with
+  | nil => intro done; simp [appendAll]
+  | cons is iss ih =>
+    intro done
+    simp only [List.map_cons, appendAll, List.flatten_cons]
+    have step : appendEntries
+        (specSlots nb (fun b => (filt h b (done ++ (is ++ iss.flatten))).length) (fun b => filt h b done))
+        (canon h nb is)
+        = .ok (specSlots nb (fun b => (filt h b ((done ++ is) ++ iss.flatten)).length)
+            (fun b => filt h b (done ++ is))) := by
+      unfold specSlots canon
+      apply appendEntries_map
+      intro b _
+      simp only [List.append_assoc, filt_append, List.length_append]
+      have hf : List.filter (fun e => h e.kmer == b) is = filt h b is := rfl
+      rw [hf]
+      by_cases h0 : (filt h b is).length = 0
+      · have hnil : filt h b is = [] := List.eq_nil_of_length_eq_zero h0
+        simp [hnil, appendSlot]
+      · have hpos : ¬ ((filt h b done).length + ((filt h b is).length + (filt h b iss.flatten).length) = 0) := by omega
+        simp only [h0, hpos, if_false, appendSlot]
+        rw [if_pos (by omega)]
+    rw [step]
+    simp only []
+    have := ih (done ++ is)
+    simpa [List.append_assoc] using this
+
+theorem mergeSlots_canon (h : Nat → Nat) (nb : Nat) (iss : List (List Entry)) :
+    mergeSlots nb (iss.map (canon h nb)) = .ok (canon h nb iss.flatten) := by
+  unfold mergeSlots
+  rw [replicate_zero_eq, foldl_countTable]
+  simp only [Nat.zero_add]
+  rw [initArrays_spec, canon_eq_spec]
+  have := appendAll_spec h nb iss []
+  simpa [filt] using this
+
+
+
+theorem flatMap_congr' {α β : Type} (l : List α) (f g : α → List β) (h : ∀ x ∈ l, f x = g x) :
+    l.flatMap f = l.flatMap g := by
+  induction l with
+  | nil => rfl
+  | cons x xs ih =>
+    simp only [List.flatMap_cons, h x (by simp), ih (fun y hy => h y (by simp [hy]))]
+
 end BiotiteModel.C10
